@@ -28,6 +28,7 @@ RULE = ("Hypothesis: mido files with ticks_per_beat from {24,48,96,120,192,240,3
         "24*tick for some event), >= 2 tracks, and a group of >= 2 tracks or a track outside all groups. Distinct by digest.")
 RULE = RULE + " Rounds e-g: a second load of the same parsed MidiFile, pitch-wheel / aftertouch / poly-pressure / sysex runs carrying delta time, explicit groups with the default meta selection."
 RULE = RULE + " Round h: velocities from a two-value pool."
+RULE = RULE + " Round k: consecutive signatures of equal quotient."
 ASSUMPTIONS = ["mido's message and file model is trusted", "notes shorter than 1.5 library ticks are not generated (rounding may annihilate them)"]
 TIERS = {"quick": dict(shards=8, examples=300), "thorough": dict(shards=16, examples=4000)}
 
@@ -80,7 +81,15 @@ def _case(draw):
             elif act in ("ts", "ks") and all(abs(t - x) >= sigspace for x in sig_at[act]):
                 sig_at[act].append(t)
                 if act == "ts":
-                    events.append([d, "ts", draw(st.integers(1, 16)), draw(st.sampled_from([2, 4, 8, 16]))])
+                    prev_ts = [e for tr_ in tracks + [events] for e in tr_ if e[1] == "ts"]
+                    if prev_ts and draw(st.integers(0, 2)) == 0:
+                        n0, d0_ = prev_ts[-1][2], prev_ts[-1][3]       # another signature with the same quotient (6/8 -> 3/4 -> 12/16)
+                        opts = [(n0 * 2, d0_ * 2)] if d0_ <= 8 and n0 <= 8 else []
+                        opts += [(n0 // 2, d0_ // 2)] if n0 % 2 == 0 and d0_ >= 4 else []
+                        nv = draw(st.sampled_from(opts)) if opts else (draw(st.integers(1, 16)), draw(st.sampled_from([2, 4, 8, 16])))
+                        events.append([d, "ts", nv[0], nv[1]])
+                    else:
+                        events.append([d, "ts", draw(st.integers(1, 16)), draw(st.sampled_from([2, 4, 8, 16]))])
                 else:
                     events.append([d, "ks", draw(st.sampled_from(KEYNAMES))])
             elif act == "cc":
